@@ -8,8 +8,9 @@
 EXTENDS Bip39, Json
 
 Trace == ndJsonDeserialize("trace.ndjson")
-VARIABLES l, bad, wl, lang
-vars == <<l, bad, wl, lang>>
+VARIABLES l, bad, wl, lang, registry
+vars == <<l, bad, wl, lang, registry>>
+\* registry: language key -> word list registered at run time (the two built-in lists are always registered)
 
 Known(w) == \E i \in DOMAIN wl : wl[i] = w
 IndexOf(w) == (CHOOSE i \in DOMAIN wl : wl[i] = w) - 1
@@ -18,7 +19,9 @@ LexLT(a, b) == \/ \E k \in 1..VMin(Len(a), Len(b)) : a[k] < b[k] /\ \A j \in 1..
 Prefix4(w) == SubSeq(w, 1, VMin(4, Len(w)))
 
 SetWordListConforms(e) ==
-  IF e.in.lang \in {"english", "japanese"}
+  IF e.in.lang \in DOMAIN registry
+  THEN e.out.ok /\ e.out.words = registry[e.in.lang]          \* a registered custom list: exactly the registered words
+  ELSE IF e.in.lang \in {"english", "japanese"}
   THEN /\ e.out.ok /\ Len(e.out.words) = 2048
        /\ Cardinality(RangeOf(e.out.words)) = 2048                       \* distinct
        /\ \A i \in 1..2048 : e.out.words[i] # <<>> /\ \A k \in DOMAIN e.out.words[i] : SpaceLen(e.out.words[i], k) = 0
@@ -45,6 +48,7 @@ Mnemonic8 == <<109, 110, 101, 109, 111, 110, 105, 99>>      \* "mnemonic"
 
 Conforms(e) ==
   CASE e.op = "bip39.SetWordList" -> SetWordListConforms(e)
+    [] e.op = "bip39.RegisterWordList" -> e.out.panic = "" /\ Len(e.in.words) = 2048
     [] e.op = "bip39.EntropyToMnemonic" ->
          /\ e.out.panic = "" /\ wl # <<>>
          /\ IF ValidEntropyLen(Len(e.in.entropy))
@@ -83,7 +87,7 @@ Conforms(e) ==
          /\ e.out.printed = JoinWords(e.out.words)
     [] OTHER -> FALSE
 
-Init == l = 1 /\ bad = <<>> /\ wl = <<>> /\ lang = ""
+Init == l = 1 /\ bad = <<>> /\ wl = <<>> /\ lang = "" /\ registry = <<>>
 Next == /\ l <= Len(Trace)
         /\ l' = l + 1
         /\ LET e == Trace[l]
@@ -91,6 +95,9 @@ Next == /\ l <= Len(Trace)
               /\ IF e.op = "bip39.SetWordList" /\ e.out.ok
                  THEN wl' = e.out.words /\ lang' = e.in.lang
                  ELSE UNCHANGED <<wl, lang>>
+              /\ IF e.op = "bip39.RegisterWordList"
+                 THEN registry' = (e.in.lang :> e.in.words) @@ registry          \* registration replaces an earlier one
+                 ELSE UNCHANGED registry
 Spec == Init /\ [][Next]_vars
 Done == (l = Len(Trace) + 1) => PrintT(<<"VERIF-RESULT", Len(Trace), bad>>)
 =============================================================================
